@@ -63,12 +63,41 @@ let shrink_cmd seed size path =
   | None -> Printf.sprintf "{\"seed\":%s,\"size\":%s,\"path\":%s,\"error\":\"no such candidate\"}"
       (jnum (to_coq seed)) (jnum (to_coq size)) (json_str path)
 
+let mutants_cmd seed size maxper =
+  let ((po, counts), ms) = tool_mutants (to_coq seed) (to_coq size) (to_coq maxper) in
+  Printf.sprintf "{\"seed\":%s,\"size\":%s,\"sites\":{%s},\"mutants\":[%s],%s}"
+    (jnum (to_coq seed)) (jnum (to_coq size))
+    (Stdlib.String.concat "," (List.map (fun (k, (c, e)) ->
+         Printf.sprintf "%s:{\"candidates\":%s,\"eligible\":%s}" (js k) (jnum c) (jnum e)) counts))
+    (Stdlib.String.concat "," (List.map (fun m ->
+         Printf.sprintf "{\"kind\":%s,\"site\":%s,\"fault_form\":%s,\"line_lo\":%s,\"line_hi\":%s,\"bad_form\":%s,\"src\":%s}"
+           (js m.mo_kind) (jnum m.mo_site) (jnum m.mo_form) (jnum m.mo_lo) (jnum m.mo_hi) (js m.mo_bad) (js m.mo_src)) ms))
+    (prog_fields po)
+
 let command (ws : Stdlib.String.t list) : Stdlib.String.t =
   match ws with
   | ["gen"; seed; size] ->
     let (tries, po) = tool_gen (to_coq seed) (to_coq size) in
     Printf.sprintf "{\"seed\":%s,\"size\":%s,\"tries\":%s,%s}"
       (jnum (to_coq seed)) (jnum (to_coq size)) (jnum tries) (prog_fields po)
+  | ["mutants"; seed; size] -> mutants_cmd seed size "5"
+  | ["mutants"; seed; size; maxper] -> mutants_cmd seed size maxper
+  | ["forms"; seed; size] ->
+    let ((hd, forms), po) = tool_forms (to_coq seed) (to_coq size) in
+    Printf.sprintf "{\"seed\":%s,\"size\":%s,\"header\":%s,\"forms\":[%s],%s}"
+      (jnum (to_coq seed)) (jnum (to_coq size)) (js hd)
+      (Stdlib.String.concat "," (List.map (fun (src, out) ->
+           Printf.sprintf "{\"src\":%s,\"expect_out\":%s}" (js src) (js out)) forms))
+      (prog_fields po)
+  | ["corpus"] -> "{\"names\":" ^ jlist tool_corpus_names ^ "}"
+  | ["corpus"; name] ->
+    (match tool_corpus (to_coq name) with
+     | Some po -> Printf.sprintf "{\"corpus\":%s,%s}" (json_str name) (prog_fields po)
+     | None -> "{\"error\":\"no such corpus entry\"}")
+  | ["raw"; seed; size] ->
+    let ((bad, items), po) = tool_raw (to_coq seed) (to_coq size) in
+    Printf.sprintf "{\"seed\":%s,\"size\":%s,\"bad_items\":[%s],\"items\":%s,%s}" (jnum (to_coq seed)) (jnum (to_coq size))
+      (Stdlib.String.concat "," (List.map of_coq bad)) (jlist items) (prog_fields po)
   | ["shrink"; seed; size] | ["shrink"; seed; size; "-"] | ["shrink"; seed; size; ""] ->
     shrink_cmd seed size ""
   | ["shrink"; seed; size; path] -> shrink_cmd seed size path
